@@ -48,6 +48,11 @@ def run_batch(scns, runner=impl_thr.run_scenario, project=None):
         pos += n
         r["diff"] = None
         for i, (a, b) in enumerate(zip(r["impl"], r["model"])):
+            if b.strip() == "fuel-exhausted":
+                # the model's step fuel ran out on a very long asyncio run: its history from here on is
+                # unknown, so the comparison of this scenario stops (Specs on the implementation still run)
+                r["model_fuel"] = True
+                break
             if project is not None:
                 a, b = project(a), project(b)
             if a != b:
